@@ -293,8 +293,10 @@ def visit(visitor, obj, attr, cff):
             else:
                 setattr(topDict, attr, visitor.scale(value))
 
-        for i in range(6):
-            topDict.FontMatrix[i] /= visitor.scaleFactor
+        # Assign a new list: when the font has no FontMatrix of its own, the
+        # attribute is the shared default object, which must not be modified
+        # (and would compare equal to itself and not be written on compile).
+        topDict.FontMatrix = [v / visitor.scaleFactor for v in topDict.FontMatrix]
 
         for private in privates:
             for attr in (
